@@ -93,3 +93,48 @@ func OutPointBytes(txid [32]byte, index uint32) []byte {
 	out[35] = byte(index >> 24)
 	return out
 }
+
+// murmur constants' inverses mod 2^32
+func inv32(a uint32) uint32 { // a odd
+	x := a
+	for i := 0; i < 5; i++ {
+		x *= 2 - a*x
+	}
+	return x
+}
+
+func unfmix32(h uint32) uint32 {
+	h ^= h >> 16
+	h *= inv32(0xc2b2ae35)
+	h ^= h>>13 ^ h>>26
+	h *= inv32(0x85ebca6b)
+	h ^= h >> 16
+	return h
+}
+
+// Murmur3Partner returns an 8-byte string y whose first four bytes are
+// `first` and for which Murmur3(seed, y) == target.  MurmurHash3's block
+// mixing is invertible, so anyone who knows the seed can construct colliding
+// inputs; this is used to build items that collide under one hash function
+// of a bloom filter.
+func Murmur3Partner(seed uint32, first [4]byte, target uint32) []byte {
+	const c1, c2 = 0xcc9e2d51, 0x1b873593
+	// state after the first block
+	k := uint32(first[0]) | uint32(first[1])<<8 | uint32(first[2])<<16 | uint32(first[3])<<24
+	k *= c1
+	k = bits.RotateLeft32(k, 15)
+	k *= c2
+	h := seed ^ k
+	h = bits.RotateLeft32(h, 13)
+	h = h*5 + 0xe6546b64
+	// required state before finalisation (length 8)
+	want := unfmix32(target) ^ 8
+	// want = rotl(h ^ k2', 13)*5 + 0xe6546b64
+	t := (want - 0xe6546b64) * inv32(5)
+	t = bits.RotateLeft32(t, -13)
+	k2 := t ^ h
+	k2 *= inv32(c2)
+	k2 = bits.RotateLeft32(k2, -15)
+	k2 *= inv32(c1)
+	return []byte{first[0], first[1], first[2], first[3], byte(k2), byte(k2 >> 8), byte(k2 >> 16), byte(k2 >> 24)}
+}
